@@ -139,6 +139,18 @@ func (c *Ctx) Touch(fns ...*ssa.Function) {
 }
 
 // Fn resolves a function or records BROKEN.
+// FnAny resolves the first of the named functions that exists (a private worker or, when it was inlined,
+// the exported method that now does its work); an anchor failure is reported only when none exists.
+func (c *Ctx) FnAny(pkg string, names ...string) *ssa.Function {
+	for _, n := range names {
+		if fn, err := c.P.Func(pkg, n); err == nil {
+			c.Touch(fn)
+			return fn
+		}
+	}
+	return c.Fn(pkg, names[0])
+}
+
 func (c *Ctx) Fn(pkg, name string) *ssa.Function {
 	fn, err := c.P.Func(pkg, name)
 	if err != nil {
